@@ -146,7 +146,7 @@ def gen_growth(rng, k, root, zero_p):
         if rng.random() < zero_p:
             out.append(0.0)
         else:
-            out.append(rng.choice([-1, 1]) * rng.uniform(0.05, 3.0) / root)
+            out.append(rng.choice([-1, 1]) * rng.uniform(0.2, 3.0) / root)
     return out
 
 
@@ -197,6 +197,9 @@ def corpus():
         dict(base, model="pwexp", theta=[[2.0]], growth=[[0.1, 0.2, 0.3]], grid=[1.5, 3.0]),
         dict(base, model="exponential", theta=[[2.0]], growth=[[0.0]]),
         dict(base, model="pwexp", theta=[[2.0]], growth=[[0.0]]),
+        dict(base, model="linear", n=8, scheme="serial", tips=[1.7, 1.74, 3.7, 3.22499, 0.0, 1.5, 2.8, 1.61],
+             coals=[[4.0, 4.7, 4.8, 5.7, 7.2, 8.1, 8.6]], grid=[1.5, 1.61],
+             theta=[[11.891376285194873, 18.933207559933997, 1.846555865904572]]),
         dict(base, model="constant", theta=[[3.0]], coals=[[2.0, 6.0, 12.0]]),
         dict(base, model="skyride", theta=[[3.0, 10.0, 4.0]], tips=[0.0, 1.0, 1.0, 0.0], coals=[[3.0, 2.0, 4.0]],
              scheme="ties"),
@@ -235,6 +238,13 @@ def condition(case, r):
         k = len(theta) - 1
         if any(theta[j] == theta[j + 1] and theta[j] != theta[k] for j in range(k)):
             return "flat-segment-inside-grid"
+        # a sampling time exactly on grid point j+1, sloped piece before it, constant N after it: the
+        # interpolated N at the tie can differ from theta_{j+1} by one ulp and the code then applies the
+        # difference quotient (ln Nb - ln Na)/(Nb - Na) to two sizes one ulp apart
+        g = case["grid"]
+        if any(g[j] in case["tips"] and theta[j] != theta[j + 1] and (j + 1 == k or theta[j + 1] == theta[j + 2])
+               for j in range(k)):
+            return "sampling-time-on-grid-point-before-flat-piece"
     return None
 
 
@@ -421,8 +431,9 @@ def fclose(a, b, rtol=RTOL):
 # ----------------------------------------------------------------------------- property on the implementation
 
 def short(case):
-    return (f"{CLASS[case['model']]} n={case['n']} mode={case['mode']} tips={case['tips']} coals={case['coals']} "
-            f"theta={case['theta']} growth={case['growth']} grid={case['grid']}")
+    txt = (f"{CLASS[case['model']]} n={case['n']} mode={case['mode']} tips={case['tips']} coals={case['coals']} "
+           f"theta={case['theta']} growth={case['growth']} grid={case['grid']}")
+    return txt if len(txt) <= 420 else txt[:420] + " ... (full case in the replay file)"
 
 
 def property_on_impl(case, base, rng):
